@@ -223,6 +223,58 @@ func RunB(r *rep.Run) {
 			}
 		}
 	}
+	orderedReads(r, e)
+}
+
+// orderedReads: a locking read with ORDER BY and LIMIT must ask the coordinator about the rows it returns, not about the
+// first rows in key order.
+func orderedReads(r *rep.Run, e *sys.Env) {
+	cases := []struct{ sql string }{
+		{"SELECT id, v FROM t_int WHERE v >= 10 ORDER BY v DESC LIMIT 1 FOR UPDATE"},
+		{"SELECT id, v FROM t_int WHERE v >= 10 ORDER BY v DESC LIMIT 2 FOR UPDATE"},
+		{"SELECT id, v FROM t_int WHERE id >= 1 ORDER BY id DESC LIMIT 1 FOR UPDATE"},
+		{"SELECT id, v FROM t_int ORDER BY v LIMIT 1 FOR UPDATE"},
+	}
+	for _, c := range cases {
+		r.Eval(true)
+		r.Count("partB_cases", 1)
+		e.Srv.Restore(nil)
+		e.TC.ResetState()
+		// key order and value order disagree: id 1 has the smallest key and the largest v
+		if _, err := e.Bare.Exec("INSERT INTO t_int (id, v) VALUES (1, 30), (2, 20), (3, 10)"); err != nil {
+			r.Broken = err.Error()
+			return
+		}
+		sys.TakeErrors()
+		mark := len(e.TC.Events())
+		var ids []string
+		var qerr error
+		tm.WithGlobalTx(context.Background(), &tm.GtxConfig{Name: "c03b-ordered"}, func(ctx context.Context) error {
+			rows, err := e.AT.QueryContext(ctx, c.sql)
+			if err != nil {
+				qerr = err
+				return err
+			}
+			for rows.Next() {
+				var id, v int64
+				rows.Scan(&id, &v)
+				ids = append(ids, fmt.Sprintf("t_int:%d", id))
+			}
+			rows.Close()
+			return nil
+		})
+		sort.Strings(ids)
+		asked := dedup(keysOf(e.TC.Events(), "query", mark))
+		loc := map[string]interface{}{"sql": c.sql}
+		if qerr != nil {
+			r.Violate("partB/ordered-read-failed/t_int", clauseText, loc, qerr.Error())
+		} else if strings.Join(asked, ",") != strings.Join(ids, ",") {
+			r.Violate("partB/asked-about-other-rows/t_int", clauseText, loc, fmt.Sprintf("%s returned the rows %v but asked the coordinator about %v", c.sql, ids, asked))
+		}
+		if n := e.Srv.HeldLocks(); n != 0 {
+			e.Srv.Crash()
+		}
+	}
 }
 
 func dedup(in []string) []string {
